@@ -731,7 +731,7 @@ fn main() {
     let (k, rest) = line.split_once(' ').unwrap_or((line, ""));
     match k {
       "layout" => layout_line(rest.split_whitespace().next().unwrap_or("-")),
-      "tailrec" | "tailstmt" | "cpe" | "cpesem" => pass_line(if k == "tailstmt" { "tailrec" } else { k }, rest),
+      "tailrec" | "tailstmt" | "cpe" | "cpesem" | "cpeprog" => pass_line(if k == "tailstmt" { "tailrec" } else { k }, rest),
       _ => "bad-line".to_string(),
     }
   });
